@@ -137,12 +137,52 @@ def make_combo(rng, chart):
     return True
 
 
+
+def combo_shrink(ctx, lines, impl, metas):
+    """a combination chart (bar + line, as other producers write them) cut down by replace_data to every smaller number of
+    series - inside the last plot, exactly at the plot boundary, across it: the cached values must still be the cells"""
+    from pptx import Presentation
+    from pptx.chart.data import CategoryChartData
+    from pptx.enum.chart import XL_CHART_TYPE
+
+    class Fixed:
+        def __init__(self, k):
+            self.k = k
+
+        def randint(self, a, b):
+            return self.k
+    for nbar, nline in ((3, 2), (2, 3), (1, 1), (4, 1)):
+        for target in range(1, nbar + nline + 2):
+            prs = Presentation(); slide = prs.slides.add_slide(prs.slide_layouts[6])
+            cd = CategoryChartData(); cd.categories = ["a", "b", "c"]
+            for j in range(nbar + nline):
+                cd.add_series("S%d" % j, [j, j + 1, j + 2])
+            chart = slide.shapes.add_chart(XL_CHART_TYPE.COLUMN_CLUSTERED, 0, 0, 100, 100, cd).chart
+            if not make_combo(Fixed(nline), chart):
+                continue
+            cd2 = CategoryChartData(); cd2.categories = ["p", "q"]
+            spec2 = {"kind": "str", "cats": ["p", "q"], "depth": 1, "series": []}
+            for j in range(target):
+                cd2.add_series("T%d" % j, [10 * j, 10 * j + 1]); spec2["series"].append(("T%d" % j, [10 * j, 10 * j + 1]))
+            try:
+                chart.replace_data(cd2)
+            except Exception:  # noqa
+                ctx.count("replace-raised(see C07)")
+                continue
+            ctx.count("combination-chart-cut-to-n-series")
+            check(ctx, chart, spec2, XL_CHART_TYPE.COLUMN_CLUSTERED, f"combo {nbar}+{nline} -> {target}", lines, impl, metas)
+            nser = len(lab.chart_xml(chart).xpath("//c:ser", namespaces=lab.NS))
+            if nser != target:
+                ctx.fail("replace-data-series-count", f"combination chart {nbar}+{nline} after replace_data with {target} series holds {nser} c:ser", {"bars": nbar, "lines": nline, "target": target})
+
+
 def correspond(ctx):
     from pptx import Presentation
 
     rng = ctx.rng
     types = lab.writable_types()
     lines, impl, metas = [], [], []
+    combo_shrink(ctx, lines, impl, metas)
     prs = Presentation(); slide = prs.slides.add_slide(prs.slide_layouts[6])
     per_type = 10 if ctx.quick else 60
     wide = [27, 53] if ctx.quick else [27, 53, 703]
